@@ -3,6 +3,9 @@
 //!              `C17 s <string>`              parse a string at the four observation points
 //!              `C17 m <orig> <pos:char,..>`  apply the edits to <orig>, parse the result at the four observation points
 //!              `C17 x <orig> <i> <j>`        all replacements by other bech32 characters at positions i,j (i = j: one position)
+//!              `C17 c <orig>`                all 2^len case patterns of the human-readable part, each with a lower- and an upper-case data part
+//!              `C17 r <orig> <i> <j>`        all replacements by other characters of the HRP alphabet (both letter cases, digits, punctuation)
+//!                                            at positions i,j of the human-readable part (i = j: one position)
 use crate::addr::*;
 use crate::{util::*, Case, Out};
 use elements::address::Payload;
@@ -12,6 +15,8 @@ use rand_chacha::ChaCha20Rng;
 use std::str::FromStr;
 
 const CHARSET: &[u8] = b"qpzry9x8gf2tvdw0s3jn54khce6mua7l";
+const HRPCH: &[u8] = b"abcdefghijklmnopqrstuvwxyz0123456789ABCDEFGHIJKLMNOPQRSTUVWXYZ-_.!";
+const NAMES: [&str; 4] = ["from_str", "parse_with_params(LIQUID)", "parse_with_params(ELEMENTS)", "parse_with_params(LIQUID_TESTNET)"];
 
 fn apply_edits(orig: &str, edits: &str) -> Option<String> {
     let mut b = orig.as_bytes().to_vec();
@@ -46,10 +51,9 @@ pub fn eval(case: &str) -> Out {
             let rs = four(&m);
             let mut pred_fail = None;
             if is_segwit(&o) && m != orig {
-                let names = ["from_str", "parse_with_params(LIQUID)", "parse_with_params(ELEMENTS)", "parse_with_params(LIQUID_TESTNET)"];
                 for (k, r) in rs.iter().enumerate() {
                     if r.is_ok() {
-                        pred_fail = Some(format!("corruption-accepted|{} accepts {} which differs from the valid address {} in at most two characters", names[k], m, orig));
+                        pred_fail = Some(format!("corruption-accepted|{} accepts {} which differs from the valid address {} in at most two characters", NAMES[k], m, orig));
                         break;
                     }
                 }
@@ -81,6 +85,65 @@ pub fn eval(case: &str) -> Out {
             }
             let pred_fail = if is_segwit(&o) { first_bad.map(|s| format!("corruption-accepted|{} parses although it differs from the valid address {} in at most two characters", s, orig)) } else { None };
             Out { result: format!("orig=[{}] n={} acc={} cksum={}", show_res(&o), n, acc, ck), pred_fail }
+        }
+        (Some("c"), 3) => {
+            let orig = w[2];
+            let o = Address::from_str(orig);
+            let Some(sep) = orig.rfind('1') else { return Out::ok("harnesserr nosep".into()) };
+            if sep > 8 { return Out::ok("harnesserr hrplen".into()); }
+            let (hrp, data) = (&orig.as_bytes()[..sep], &orig[sep + 1..]);
+            let (mut n, mut oks, mut fs) = (0u32, Vec::new(), Vec::new());
+            let mut pred_fail: Option<String> = None;
+            for mask in 0u32..(1 << sep) {
+                for (dn, d) in [("l", data.to_lowercase()), ("u", data.to_uppercase())] {
+                    let mut t: Vec<u8> = hrp.iter().enumerate().map(|(i, &c)| if (mask >> i) & 1 == 1 { c.to_ascii_uppercase() } else { c.to_ascii_lowercase() }).collect();
+                    t.push(b'1'); t.extend(d.bytes());
+                    let Ok(t) = String::from_utf8(t) else { return Out::ok("harnesserr utf8".into()) };
+                    let rs = four(&t);
+                    n += 1;
+                    fs.push(match &rs[0] { Ok(_) => "ok".to_string(), Err(e) => err_name(e) });
+                    if rs.iter().any(|r| r.is_ok()) { oks.push(format!("{}{}", mask, dn)); }
+                    // the property: a string with letters of both cases never parses; the two single-case forms parse to the same address
+                    let mixed = t.bytes().any(|c| c.is_ascii_uppercase()) && t.bytes().any(|c| c.is_ascii_lowercase());
+                    if pred_fail.is_none() && is_segwit(&o) {
+                        if mixed {
+                            if let Some(k) = rs.iter().position(|r| r.is_ok()) {
+                                pred_fail = Some(format!("mixed-case-accepted|{} accepts {} (letters of both cases; the valid address is {})", NAMES[k], t, orig));
+                            }
+                        } else if rs[0].as_ref().ok() != o.as_ref().ok() {
+                            pred_fail = Some(format!("case-roundtrip|from_str({}) is {} but the single-case form of {} must parse to the same address", t, show_res(&rs[0]), orig));
+                        }
+                    }
+                }
+            }
+            Out { result: format!("orig=[{}] n={} acc={} ok={} fs={}", show_res(&o), n, oks.len(), oks.join(","), fs.join(";")), pred_fail }
+        }
+        (Some("r"), 5) => {
+            let orig = w[2];
+            let (Ok(i), Ok(j)) = (w[3].parse::<usize>(), w[4].parse::<usize>()) else { return Out::ok("harnesserr pos".into()) };
+            let o = Address::from_str(orig);
+            let b = orig.as_bytes();
+            if i >= b.len() || j >= b.len() || !b[i].is_ascii() || !b[j].is_ascii() { return Out::ok("harnesserr pos".into()); }
+            let (mut n, mut acc, mut mix, mut h) = (0u64, 0u64, 0u64, 0u64);
+            let mut first_bad: Option<(String, usize)> = None;
+            let mut visit = |m: &[u8]| {
+                let s = std::str::from_utf8(m).unwrap();
+                let rs = four(s);
+                n += 1;
+                if let Some(k) = rs.iter().position(|r| r.is_ok()) { acc += 1; if first_bad.is_none() { first_bad = Some((s.to_string(), k)); } }
+                if let Err(e) = &rs[0] { if err_name(e).ends_with("mixedcase") { mix += 1; } }
+                for c in show_res(&rs[0]).bytes().chain(std::iter::once(b'\n')) { h = (h * 131 + c as u64) & 0xffff_ffff; }
+            };
+            let mut m = b.to_vec();
+            for &a in HRPCH.iter().filter(|&&c| c != b[i]) {
+                m[i] = a;
+                if i == j { visit(&m); } else {
+                    for &c in HRPCH.iter().filter(|&&c| c != b[j]) { m[j] = c; visit(&m); }
+                    m[j] = b[j];
+                }
+            }
+            let pred_fail = if is_segwit(&o) { first_bad.as_ref().map(|(s, k)| format!("hrp-corruption-accepted|{} accepts {} which differs from the valid address {} only in one or two characters of the human-readable part", NAMES[*k], s, orig)) } else { None };
+            Out { result: format!("orig=[{}] n={} acc={} mix={} h={} first={}", show_res(&o), n, acc, mix, h, first_bad.map(|(s, _)| s).unwrap_or("-".into())), pred_fail }
         }
         _ => Out::ok("harnesserr args".into()),
     }
@@ -169,8 +232,27 @@ pub fn gen(rng: &mut ChaCha20Rng, n: usize, thorough: bool) -> Vec<Case> {
             if edits.is_empty() { let p = 0; edits.push((p, if b[p] == b'z' { b'y' } else { b'z' })); }
         }
         let es: Vec<String> = edits.iter().map(|(p, c)| format!("{}:{}", p, *c as char)).collect();
+        // every case pattern of the human-readable part of the same address (2^len patterns x lower/upper data part)
+        let ctags: Vec<String> = tags.iter().filter(|t| ["liq", "ele", "tliq", "blinded", "unblinded"].contains(&t.as_str())).cloned().chain(std::iter::once("hrp-case-patterns".to_string())).collect();
         out.push(Case { text: format!("C17 m {} {}", s, es.join(",")), tags, nontrivial: true });
+        out.push(Case { text: format!("C17 c {}", s.to_lowercase()), tags: ctags, nontrivial: true });
     }
+    // the human-readable part completely: every replacement of one character and of every pair of characters by the other 65 characters of
+    // the HRP alphabet (other-case letters, the other networks' letters, digits incl. the separator, punctuation) for each of the six
+    // (network, blinded) classes, on the lower-case and on the upper-case form
+    for net in 0..3usize { for blinded in [false, true] {
+        for rep in 0..(if thorough { 3 } else { 1 }) {
+            let (ver, plen) = match rep { 0 => (1u8, 32usize), 1 => (0, 20), _ => (rng.gen_range(2..=16u8), rng.gen_range(2..=40usize)) };
+            let s = mk_addr(rng, net, 2, ver, plen, blinded).to_string();
+            let sep = s.rfind('1').unwrap();
+            for form in [s.clone(), s.to_uppercase()] {
+                for i in 0..sep { for j in i..sep {
+                    out.push(Case { text: format!("C17 r {} {} {}", form, i, j), tags: vec!["hrp-enum".into(), NETS[net].0.into(), if blinded { "blinded".into() } else { "unblinded".into() },
+                        if i == j { "hrp-one-position".into() } else { "hrp-two-positions".into() }], nontrivial: true });
+                } }
+            }
+        }
+    } }
     // complete enumerations at fixed position pairs
     let batches = |out: &mut Vec<Case>, s: &str, tag: &str, pairs: Vec<(usize, usize)>| {
         for (i, j) in pairs {
